@@ -23,15 +23,15 @@ import (
 )
 
 type HarnessSpec struct {
-	Pkg      string   `json:"pkg"`  // import path
-	Func     string   `json:"func"` // harness function name
-	Unwind   int      `json:"unwind"`
-	MaxPaths int      `json:"max_paths"`
-	MaxSteps int64    `json:"max_steps"`
-	Init     []string `json:"init"` // extra packages to initialise eagerly
-	Validate int      `json:"validate"`
-	QueryMs  int      `json:"query_ms"`
-	MaxSeconds int    `json:"max_seconds"`
+	Pkg        string   `json:"pkg"`  // import path
+	Func       string   `json:"func"` // harness function name
+	Unwind     int      `json:"unwind"`
+	MaxPaths   int      `json:"max_paths"`
+	MaxSteps   int64    `json:"max_steps"`
+	Init       []string `json:"init"` // extra packages to initialise eagerly
+	Validate   int      `json:"validate"`
+	QueryMs    int      `json:"query_ms"`
+	MaxSeconds int      `json:"max_seconds"`
 }
 
 type Spec struct {
@@ -128,16 +128,16 @@ type concSpec struct {
 }
 
 type loaded struct {
-	prog     *ssa.Program
-	pkgs     map[string]*ssa.Package
-	numFuncs int
-	replaces map[string]map[string]string // harness file -> callee -> stub
+	prog       *ssa.Program
+	pkgs       map[string]*ssa.Package
+	numFuncs   int
+	replaces   map[string]map[string]string   // harness file -> callee -> stub
 	concretize map[string]map[string]concSpec // harness file -> callee -> parameter to concretise
-	fileOf   map[string]string            // harness func -> file
-	allFuncs map[string]*ssa.Function
-	hashes   map[string]string
-	overlay  map[string][]byte
-	hfiles   map[string][]string // pkg rel dir -> overlay file paths
+	fileOf     map[string]string              // harness func -> file
+	allFuncs   map[string]*ssa.Function
+	hashes     map[string]string
+	overlay    map[string][]byte
+	hfiles     map[string][]string // pkg rel dir -> overlay file paths
 }
 
 var replaceRe = regexp.MustCompile(`(?m)^//verif:(?:replace|wrap)\s+(\S+)\s+=>\s+(\S+)\s*$`)
